@@ -890,3 +890,59 @@ func resolveParam(ctx *Ctx, v ssa.Value) (*Ctx, ssa.Value) {
 	}
 	return ctx, v
 }
+
+// ruleC05StopOnError: once compacting one of the picked segments failed, Compact does not go on with the newer ones
+// (their delete records may only be dropped when every older picked segment was compacted).
+func ruleC05StopOnError(r *Run, p *Program, rule string) {
+	f := p.Fn("(*pogreb.DB).Compact")
+	if !r.anchor(rule, "(*pogreb.DB).Compact", f != nil) {
+		return
+	}
+	r.fn(funcKey(f))
+	all, root := allNodes(p, f)
+	var calls []Node
+	for nd := range all.Reached {
+		if calleeOfNode(nil, nd) == "(*pogreb.DB).compact" {
+			calls = append(calls, nd)
+		}
+	}
+	if !r.anchor(rule, "call to compact() under Compact", len(calls) > 0) {
+		return
+	}
+	for _, cn := range calls {
+		c, ok := cn.In.(*ssa.Call)
+		if !ok {
+			continue
+		}
+		// explore from the call along the "error is non-nil" edge only
+		w := &IPWalk{P: p, SkipEdge: func(ctx *Ctx, b *ssa.BasicBlock, k int) bool {
+			if ctx != cn.Ctx {
+				return false
+			}
+			cd := edgeCond(b, k)
+			if cd == nil {
+				return false
+			}
+			e := errNilEdge(cd)
+			return e != nil && valueOfCall(e, c)
+		}, NoInline: func(callee *ssa.Function) bool { return funcKey(callee) == "(*pogreb.DB).compact" }}
+		w.Run(root, []Node{cn})
+		again := false
+		tested := false
+		for _, bb := range cn.Ctx.Fn.Blocks {
+			for k := range bb.Succs {
+				if cd := edgeCond(bb, k); cd != nil {
+					if e := errNilEdge(cd); e != nil && valueOfCall(e, c) {
+						tested = true
+					}
+				}
+			}
+		}
+		for _, other := range calls {
+			if w.Reached[other] {
+				again = true
+			}
+		}
+		r.check(tested && !again, rule, funcKey(f)+":stop-on-error", p.Pos(c.Pos()), "after a failed compact(seg) no further segment is compacted in this run", "Compact goes on with the remaining (newer) picked segments after compacting an older one failed: the newer segment's delete records are dropped while the older segment still holds the puts, and the deleted keys come back after a crash")
+	}
+}
